@@ -98,7 +98,7 @@ impl FromStr for Term {
     type Err = Error;
 
     fn from_str(s: &str) -> Result<Self> {
-        let (res, rest) = parse_term(s)?;
+        let (res, rest) = parse_term(s, 0)?;
         if !rest.trim().is_empty() {
             fail!("Trailing content in term: {rest:?}");
         }
@@ -106,11 +106,20 @@ impl FromStr for Term {
     }
 }
 
-fn parse_term(s: &str) -> Result<(Term, &str)> {
+/// The maximal nesting depth of a term. The terms in use nest at most three levels deep (e.g.,
+/// `Timestamp(Second, Some("UTC"))`). The limit turns the stack exhaustion of the recursive descent
+/// on deeply nested input into an error
+const MAX_TERM_DEPTH: usize = 32;
+
+fn parse_term(s: &str, depth: usize) -> Result<(Term, &str)> {
+    if depth > MAX_TERM_DEPTH {
+        fail!("Term is nested too deeply");
+    }
+
     let s = s.trim_start();
     let (name, quoted, s) = parse_term_name(s)?;
     let s = s.trim_start();
-    let (arguments, s) = parse_arguments(s)?;
+    let (arguments, s) = parse_arguments(s, depth)?;
 
     Ok((
         Term {
@@ -204,7 +213,7 @@ fn parse_ident_term_name(s: &str) -> Result<(String, &str)> {
     Ok((ident, rest))
 }
 
-fn parse_arguments(s: &str) -> Result<(Vec<Term>, &str)> {
+fn parse_arguments(s: &str, depth: usize) -> Result<(Vec<Term>, &str)> {
     let Some(s) = s.strip_prefix('(') else {
         return Ok((vec![], s));
     };
@@ -216,7 +225,7 @@ fn parse_arguments(s: &str) -> Result<(Vec<Term>, &str)> {
         s = s.trim_start();
 
         let term;
-        (term, s) = parse_term(s)?;
+        (term, s) = parse_term(s, depth + 1)?;
         arguments.push(term);
 
         s = s.trim_start();
